@@ -21,6 +21,7 @@ type Result struct {
 	Query   string // path of the query file (kept on failure)
 	Model   string
 	reproduced bool
+	Answers []string
 	fv *funcVC
 	k int
 }
@@ -35,6 +36,8 @@ type funcVC struct {
 }
 
 // buildQuery assembles the SMT text for obligation at item index k.
+var modelKeepQuant = false
+
 func buildQuery(eng *Engine, solver string, fv *funcVC, k int, wantModel bool) string {
 	var sb strings.Builder
 	if wantModel {
@@ -57,13 +60,18 @@ func buildQuery(eng *Engine, solver string, fv *funcVC, k int, wantModel bool) s
 			sb.WriteString(it.Text)
 			sb.WriteByte('\n')
 		case itAssume:
-			if wantModel && strings.Contains(it.Text, "(forall ") {
-				// model search: drop quantified hypotheses (a spurious model is caught by the replay)
-				continue
+			txt := it.Text
+			if wantModel && !modelKeepQuant && strings.Contains(txt, "(forall ") {
+				// model search: replace quantified hypotheses by finitely many instances, drop what remains
+				// (a spurious model is caught by the replay)
+				txt = definitize(txt)
+				if strings.Contains(txt, "(forall ") {
+					continue
+				}
 			}
-			sb.WriteString("(assert " + it.Text + ")\n")
+			sb.WriteString("(assert " + txt + ")\n")
 		case itOblig:
-			if wantModel && strings.Contains(it.Ob.Formula, "(forall ") {
+			if wantModel && !modelKeepQuant && strings.Contains(it.Ob.Formula, "(forall ") {
 				continue
 			}
 			if target.Kind == "strictslice" && it.Ob.Kind == "slice" && it.Ob.Ins != nil && it.Ob.Ins == target.Ins {
@@ -81,6 +89,23 @@ func buildQuery(eng *Engine, solver string, fv *funcVC, k int, wantModel bool) s
 		sb.WriteString("(get-model)\n")
 	}
 	return eng.finishQuery(sb.String())
+}
+
+// definitize replaces registered quantified subformulas by their finite instance sets.
+func definitize(txt string) string {
+	for i := 0; i < 4 && strings.Contains(txt, "(forall "); i++ {
+		changed := false
+		for qf, fin := range finiteQ {
+			if strings.Contains(txt, qf) {
+				txt = strings.ReplaceAll(txt, qf, fin)
+				changed = true
+			}
+		}
+		if !changed {
+			break
+		}
+	}
+	return txt
 }
 
 func buildCover(eng *Engine, solver string, fv *funcVC) string {
@@ -194,53 +219,72 @@ func solveOne(eng *Engine, fv *funcVC, k, id int, opt solveOpts) *Result {
 	ob := fv.Items[k].Ob
 	res := &Result{Ob: ob, fv: fv, k: k}
 	base := filepath.Join(opt.dir, fmt.Sprintf("q%05d", id))
-	var total int64
-	for si, s := range opt.solvers {
+	files := map[string]string{}
+	for _, s := range opt.solvers {
 		flavor := "z3"
 		if s == "cvc5" {
 			flavor = "cvc5"
 		}
-		file := base + "." + s + ".smt2"
-		os.WriteFile(file, []byte(buildQuery(eng, flavor, fv, k, false)), 0o644)
-		to := opt.timeout
-		if si > 0 && !opt.allAgree {
-			to = opt.timeout
-		}
-		st, out, ms := runSolver(s, file, to)
-		total += ms
-		if st == "unsat" {
-			if !opt.allAgree || si == len(opt.solvers)-1 {
-				res.Status, res.Solver, res.Ms = "unsat", s, total
-				if !opt.keep {
-					cleanup(base)
-				}
-				return res
-			}
-			if res.Solver == "" {
-				res.Solver = s
-			}
-			continue
-		}
-		if opt.allAgree && st != "sat" && res.Solver != "" {
-			// another solver already proved it and this one merely gave up: acceptable
-			continue
-		}
-		res.Status, res.Output, res.Query = st, out, file
-		if st == "sat" {
-			res.Solver = s
-			break
-		}
+		files[s] = base + "." + s + ".smt2"
+		os.WriteFile(files[s], []byte(buildQuery(eng, flavor, fv, k, false)), 0o644)
 	}
-	if res.Status == "" || (opt.allAgree && res.Status != "sat" && res.Solver != "") {
-		res.Status = "unsat"
-		res.Ms = total
+	done := func(status, solver string, ms int64) *Result {
+		res.Status, res.Solver, res.Ms = status, solver, ms
 		if !opt.keep {
 			cleanup(base)
 		}
 		return res
 	}
-	res.Ms = total
-	// try to obtain a model (MBQI on)
+	start := time.Now()
+	if !opt.allAgree {
+		// stage 1: the fastest solver alone, briefly
+		short := 4 * time.Second
+		if opt.timeout < short {
+			short = opt.timeout
+		}
+		st, out, _ := runSolver(opt.solvers[0], files[opt.solvers[0]], short)
+		if st == "unsat" {
+			return done("unsat", opt.solvers[0], time.Since(start).Milliseconds())
+		}
+		res.Status, res.Output, res.Query = st, out, files[opt.solvers[0]]
+	}
+	// stage 2: all solvers in parallel
+	type ans struct {
+		s, st, out string
+	}
+	ch := make(chan ans, len(opt.solvers))
+	for _, s := range opt.solvers {
+		go func(s string) {
+			st, out, _ := runSolver(s, files[s], opt.timeout)
+			ch <- ans{s, st, out}
+		}(s)
+	}
+	proved := ""
+	sawSat := false
+	var answers []string
+	for range opt.solvers {
+		a := <-ch
+		answers = append(answers, a.s+"="+a.st)
+		if a.st == "unsat" && proved == "" {
+			proved = a.s
+			if !opt.allAgree {
+				break
+			}
+		}
+		if a.st == "sat" {
+			sawSat = true
+			res.Output, res.Query = a.out, files[a.s]
+		}
+		if res.Status == "" || a.st == "sat" {
+			res.Status, res.Output, res.Query = a.st, a.out, files[a.s]
+		}
+	}
+	res.Answers = answers
+	if proved != "" && !sawSat {
+		return done("unsat", proved, time.Since(start).Milliseconds())
+	}
+	res.Ms = time.Since(start).Milliseconds()
+	// model search (quantified hypotheses replaced by finite instance sets; validated by replay)
 	mfile := base + ".model.smt2"
 	os.WriteFile(mfile, []byte(buildQuery(eng, "z3", fv, k, true)), 0o644)
 	st, out, _ := runSolver("z3new", mfile, opt.timeout)
@@ -249,11 +293,8 @@ func solveOne(eng *Engine, fv *funcVC, k, id int, opt solveOpts) *Result {
 		res.Model = out
 		res.Query = mfile
 	} else if st == "unsat" {
-		// MBQI found a proof the pattern-based run missed
-		res.Status, res.Solver = "unsat", "z3new+mbqi"
-		if !opt.keep {
-			cleanup(base)
-		}
+		// the weakened hypotheses already suffice: a proof
+		return done("unsat", "z3new+finite-inst", time.Since(start).Milliseconds())
 	}
 	return res
 }
